@@ -519,6 +519,10 @@ func evalWhileLoopStmt(vm *r.VM, node *syntax.WhileLoopStmt) error {
 			}
 			return err
 		}
+		// 输出 inside the loop body ends the loop (and the enclosing body) at once
+		if vm.GetReturnValue() != nil {
+			return nil
+		}
 	}
 }
 
@@ -655,6 +659,9 @@ func evalIterateStmt(vm *r.VM, node *syntax.IterateStmt) error {
 				}
 				return err
 			}
+			if vm.GetReturnValue() != nil {
+				return nil
+			}
 		}
 	case *value.HashMap:
 		for _, key := range tv.GetKeyOrder() {
@@ -671,6 +678,9 @@ func evalIterateStmt(vm *r.VM, node *syntax.IterateStmt) error {
 					}
 				}
 				return err
+			}
+			if vm.GetReturnValue() != nil {
+				return nil
 			}
 		}
 	default:
